@@ -321,6 +321,49 @@ def run_filtering(map_on, mode, mlist):
     return xstate.bfs(S(), lambda s: list(evs), step2, lambda s: common.canon_key([s.x, s.r]), max_states=20000, nontrivial=lambda s: len(getattr(s.x, "source_to_iso_name", ())) > 0, stop_after=6)
 
 
+def run_id_filter():
+    """a decoder with PGN filters given by id: the frames it drops leave nothing behind that changes what it returns later
+    (several definitions share PGN 65280 / 130816; dropping one of them by id must not silence the others).  Differential as
+    in run_filtering: decoder R is only given the frames X returned a message for."""
+    evs = {
+        "heave": wire.ebyte_packet(wire.can_id(7, 65280, 1, 255), bytes.fromhex("3f9fdcffffffffff")),
+        "prop65280": wire.ebyte_packet(wire.can_id(7, 65280, 2, 255), bytes.fromhex("e598010203040506")),
+        "hdg": wire.ebyte_packet(wire.can_id(2, 127250, 1, 255), bytes.fromhex("0010270000ff7ffd")),
+        "lowrance": wire.ebyte_packet(wire.can_id(6, 65285, 8, 255), bytes.fromhex("8c8808fe7f555555")),
+    }
+    ident = wire.can_id(3, 130816, 1, 255)
+    for tag, payload in (("g", bytes.fromhex("1389550180fe7ffe7f")), ("f", bytes([0x02, 0x00]) + bytes(range(10, 17)))):
+        fr = wire.fast_frames(3, payload)
+        evs[f"{tag}0"], evs[f"{tag}1"] = wire.ebyte_packet(ident, fr[0]), wire.ebyte_packet(ident, fr[1])
+    results = []
+    for kw in ({"exclude_pgns": ["furunoHeave", "sonichubInit2"]}, {"include_pgns": ["furunoHeave", "vesselHeading", "sonichubInit2"]}, {"exclude_pgns": ["FURUNOHEAVE", 127250]}):
+        class S:
+            def __init__(self, kw=kw):
+                self.x, self.r = NMEA2000Decoder(**kw), NMEA2000Decoder(**kw)
+
+        def step(st, name, kw=kw):
+            rx = feed(st.x, "tcp", evs[name])
+            if norm(rx) is None:
+                if name[-1] in "01" and name[0] in "gf":
+                    feed(st.r, "tcp", evs[name])          # frames of a fast-packet message are not 'dropped messages': both get them
+                    return []
+                probe = feed(copy.deepcopy(st.r), "tcp", evs[name])
+                if norm(probe) is not None:
+                    return [{"kind": "dropped_input_changes_later_results", "facts": {"probe": "id_filter"}, "signature": f"idfilter:drop:{sorted(kw)}",
+                             "detail": f"[{kw}, event {name}] the decoder dropped this frame, a decoder that was never given the frames this one dropped earlier returns "
+                                       f"{str(norm(probe))[:80]}", "case": {"id_filter": kw}}]
+                return []
+            rr = feed(st.r, "tcp", evs[name])
+            if norm(rr) != norm(rx):
+                return [{"kind": "dropped_input_changes_later_results", "facts": {"probe": "id_filter"}, "signature": f"idfilter:differs:{sorted(kw)}",
+                         "detail": f"[{kw}, event {name}] returned {str(norm(rx))[:70]}, a decoder that was never given the dropped frames returned {str(norm(rr))[:70]}",
+                         "case": {"id_filter": kw}}]
+            return []
+        results.append(xstate.bfs(S(), lambda st: list(evs), step, lambda st: common.canon_key([st.x, st.r]), max_states=20000,
+                                  nontrivial=lambda st: len(getattr(st.x, "data", ())) > 0, stop_after=6))
+    return results
+
+
 def run_strays():
     """continuation frames that belong to no message in progress (their first frame was never seen, or they carry another
     sequence counter than the message being received) are ignored input: decoder X gets them, decoder S does not, and the two
@@ -434,6 +477,9 @@ def run(ctx):
     ores = run_other_streams()
     fvios += ores.violations
     fres.append(ores)
+    for r in run_id_filter():
+        fvios += r.violations
+        fres.append(r)
     vios = res.violations + cvios + cres.violations + fvios
     cov = {
         "states": res.states + cres.states + sum(r.states for r in fres), "transitions": res.transitions + cres.transitions + sum(r.transitions for r in fres),
@@ -458,6 +504,22 @@ def run(ctx):
 
 def replay(ctx, rep):
     c = rep.get("case", {})
+    if "id_filter" in c:
+        orig = xstate.bfs
+
+        def forced_i(init, enabled, step, key, **kw):
+            out = xstate.SearchResult()
+            for i, ev in enumerate(c["history"]):
+                v = step(init, ev)
+                if v:
+                    out.violations += [dict(x, case=dict(x.get("case", {}), history=c["history"][:i + 1])) for x in v]
+                    break
+            return out
+        xstate.bfs = forced_i
+        try:
+            return [v for r in run_id_filter() for v in r.violations if v["case"]["id_filter"] == c["id_filter"]]
+        finally:
+            xstate.bfs = orig
     if c.get("streams"):
         orig = xstate.bfs
 
